@@ -9,12 +9,19 @@ def p_c12(facts, rep, tier):
         "deferral guard (lock acquired, parent marker, previous-root equality) strictly dominates every effect "
         "(rollback-log append, root/marker store, overlay status flip, Store::commit) in the MIR control-flow graph, "
         "and each guard has an edge from which no effect is reachable. Decides the ordering skeleton for all paths, "
-        "hence all competing-changeset histories; does not decide what a successful commit writes."
+        "hence all competing-changeset histories; does not decide what a successful commit writes. H1: in the functions that hand the "
+        "changeset back (`self` by value, returning Result<Option<Self>>) no field of `self` is moved out, assigned or mutably borrowed on "
+        "a path to a hand-back point unless the moved-out value is put back from the call that consumed it."
     )
     n_fn, n_eff, n_guard = guardfx.run(facts, rep, "C12")
     rep.floor("C12 guardfx functions", n_fn, 5)
     rep.floor("C12 guardfx effect sites", n_eff, 20)
     rep.floor("C12 guardfx guards", n_guard, 9)
+    import handback
+
+    n_hf, n_hp = handback.h1(facts, rep)
+    rep.floor("H1 hand-back functions", n_hf, 2)
+    rep.floor("H1 hand-back points", n_hp, 3)
     if tier != "control":
         import witness
 
@@ -47,7 +54,9 @@ def p_c09(facts, rep, tier):
         "C09 (three clauses): (i) Rollback::truncate compares n with the number of logged deltas before any pop / "
         "pending_truncate store and the refusal edge touches nothing; (ii) Nomt::rollback's early exits precede every effect and "
         "the session it runs has record_rollback_delta=false and take_global_guard=false on all paths; (iii) the log is pruned/"
-        "truncated only after the meta switch-over (shared with C03/C17 order rules). Restored values are not decided."
+        "truncated only after the meta switch-over (shared with C03/C17 order rules); (iv) M1: the in-memory image of the log (InMemory.log) is "
+        "mutated only by InMemory's own one-record push_back / pop_back / pop_front, reached only from commit + replay, Rollback::truncate and "
+        "writeout_start respectively. Restored values are not decided."
     )
     n_fn, n_eff, n_guard = guardfx.run(facts, rep, "C09")
     guardfx.session_params_const_false(facts, rep)
@@ -59,6 +68,10 @@ def p_c09(facts, rep, tier):
     n3 = syncorder.o3(ctx, rep)
     syncorder.pending_truncate_consumers(ctx, rep)
     rep.floor("C09 O3 post-meta events", n3, 8)
+    import logowner
+
+    nm = logowner.run(facts, rep)
+    rep.floor("C09 M1 log-ownership obligations", nm, 10)
     rep.floor("C09 guardfx functions", n_fn, 2)
     rep.floor("C09 guardfx guards", n_guard, 4)
     rep.assume("path feasibility is ignored", "effect table as in rules/guardfx.py")
